@@ -257,5 +257,8 @@ func (c *Ctx) checkAtStmt(st *State, s ast.Stmt) {
 			label += ":" + cl.Label
 		}
 		c.oblige(st, "call", label, s.Pos(), Implies(And(env.facts...), t), cl.Text)
+		// checked here, so it may be used from here on (assert, then assume)
+		st.assume(c, And(env.facts...))
+		st.assumeSoft(c, t)
 	}
 }
